@@ -1,5 +1,152 @@
-From Pybtex Require Import Base.Prelude Base.PyChar Base.PyStr Model.Aux Proofs.Aux.
+(* Props/C20.v -- ".aux files are read faithfully: citations, style, data, nested inputs".
+   Only statements, each closed by `exact <lemma>`, its assumptions printed, and Examples
+   showing the hypotheses are met by non-trivial values.
 
-Theorem placeholder : forall fs m f, parse_aux 0 fs m f = NoFuel.
-Proof. exact parse_aux_no_crash_placeholder. Qed.
-Print Assumptions placeholder.
+   Vocabulary (Spec/Aux.v): `doc_visits fuel fs top` is the document flattened -- \@input files
+   read in place -- into its \citation / \bibstyle / \bibdata lines, each with its file, line
+   number and text; `doc_status` says whether flattening reached the end (Complete), an input
+   that cannot be opened (Missing), or the nesting bound (Deep).  `parse_aux fuel fs m top` is
+   the model of pybtex.auxfile.parse_file(top) with errors.report_error in mode m. *)
+From Pybtex Require Import Base.Prelude Base.PyChar Base.PyStr Model.Aux Spec.Aux Proofs.Aux.
+
+(* the citations are exactly the keys of the \citation lines, in reading order, comma lists
+   expanded, repeats kept, every other line ignored, inputs read in place *)
+Theorem citations_spec : forall fuel fs m top a,
+  parse_aux fuel fs m top = Ret a -> a_cits a = citation_keys (doc_visits fuel fs top).
+Proof. exact citations_spec_l. Qed.
+Print Assumptions citations_spec.
+
+(* a document is read to the end only if all its inputs could be read *)
+Theorem read_is_complete : forall fuel fs m top a,
+  parse_aux fuel fs m top = Ret a -> doc_status fuel fs top = Complete.
+Proof. exact complete_when_read_l. Qed.
+Print Assumptions read_is_complete.
+
+(* the style is that of the first \bibstyle line *)
+Theorem style_is_first : forall fuel fs m top a,
+  parse_aux fuel fs m top = Ret a ->
+  exists v, find (is_cmd CBibstyle) (doc_visits fuel fs top) = Some v /\ a_style a = Some (v_val v).
+Proof. exact style_is_first_l. Qed.
+Print Assumptions style_is_first.
+
+(* the data is the comma-separated list of the first \bibdata line *)
+Theorem data_is_first_split : forall fuel fs m top a,
+  parse_aux fuel fs m top = Ret a ->
+  exists v, find (is_cmd CBibdata) (doc_visits fuel fs top) = Some v /\
+            a_data a = Some (split_on [c_comma] (v_val v)).
+Proof. exact data_is_first_split_l. Qed.
+Print Assumptions data_is_first_split.
+
+(* when reporting does not raise (capture / non-strict), the errors reported are exactly
+   `reports`, in order, each carrying the file, line number and line text of the line that
+   caused it -- also when the document then ends in a fatal error *)
+Theorem reported_errors_spec : forall fuel fs m top,
+  m <> Strict ->
+  match parse_aux fuel fs m top with
+  | Ret a | Raise _ a => a_errs a = reports false false [] (doc_visits fuel fs top)
+  | _ => True
+  end.
+Proof. exact errors_spec_l. Qed.
+Print Assumptions reported_errors_spec.
+
+(* by kind: every \bibstyle after the first and every \bibdata after the first yields exactly
+   one error located at that command (second_command_reported; the locations come from the
+   flattened document, so they are right after returning from a nested file, too); a key is
+   reported, with both spellings and the location of the later one, exactly when the most recent
+   earlier citation of the same key (compared lower-cased) spells it differently
+   (case_mismatch_reported); nothing else is reported *)
+Theorem errors_by_kind : forall fuel fs m top,
+  m <> Strict ->
+  match parse_aux fuel fs m top with
+  | Ret a | Raise _ a =>
+    let vs := doc_visits fuel fs top in
+    filter is_kind_style (a_errs a) = map (err_at EStyle) (tl (filter (is_cmd CBibstyle) vs)) /\
+    filter is_kind_data (a_errs a) = map (err_at EData) (tl (filter (is_cmd CBibdata) vs)) /\
+    filter is_kind_mismatch (a_errs a) = mismatches [] (occurrences vs) /\
+    forallb (fun e => is_kind_mismatch e || is_kind_style e || is_kind_data e) (a_errs a) = true
+  | _ => True
+  end.
+Proof. exact errors_by_kind_l. Qed.
+Print Assumptions errors_by_kind.
+
+(* the parser's context object is the caller's again after a nested file has been read *)
+Theorem context_restored : forall fuel fs m name st c st',
+  a_ctx st = Some c -> parse_file fuel fs m name false st = Ret st' -> a_ctx st' = Some c.
+Proof. exact context_restored_l. Qed.
+Print Assumptions context_restored.
+
+(* a document without \bibdata, or without \bibstyle, is a pybtex error in every mode; unless an
+   earlier report was raised (strict mode) it is the fatal error located at the top file *)
+Theorem missing_is_fatal : forall fuel fs m top,
+  doc_status fuel fs top = Complete ->
+  find (is_cmd CBibdata) (doc_visits fuel fs top) = None \/
+  find (is_cmd CBibstyle) (doc_visits fuel fs top) = None ->
+  exists e a, parse_aux fuel fs m top = Raise e a /\
+    (m <> Strict ->
+     (find (is_cmd CBibdata) (doc_visits fuel fs top) = None -> e = fatal ENoData top) /\
+     (find (is_cmd CBibdata) (doc_visits fuel fs top) <> None -> e = fatal ENoStyle top)).
+Proof. exact missing_is_fatal_l. Qed.
+Print Assumptions missing_is_fatal.
+
+(* strict mode raises exactly the first error the other modes would report ... *)
+Theorem strict_raises_first : forall fuel fs top e rest,
+  reports false false [] (doc_visits fuel fs top) = e :: rest ->
+  exists a, parse_aux fuel fs Strict top = Raise e a.
+Proof. exact strict_raises_first_l. Qed.
+Print Assumptions strict_raises_first.
+
+(* ... and reads like them when there is nothing to report *)
+Theorem strict_agrees : forall fuel fs m top,
+  reports false false [] (doc_visits fuel fs top) = [] ->
+  same_reading (parse_aux fuel fs Strict top) (parse_aux fuel fs m top).
+Proof. exact strict_agrees_r. Qed.
+Print Assumptions strict_agrees.
+
+(* error_location_stable: an error, once reported, is never touched again -- reading on only
+   appends to the list of reported errors (each error holds its own copy of the context, so its
+   file and line are those of the moment it was reported, whenever it is rendered) *)
+Theorem error_location_stable : forall fs m fuel name top st,
+  match parse_file fuel fs m name top st with
+  | Ret st' | Raise _ st' => exists new, a_errs st' = a_errs st ++ new
+  | _ => True
+  end.
+Proof. exact grows_parse_file. Qed.
+Print Assumptions error_location_stable.
+
+(* reading never ends in a foreign exception (the model's Crash): only a result, a pybtex
+   error, or -- for inputs nested beyond the bound -- exhaustion *)
+Theorem never_crashes : forall fuel fs m top, parse_aux fuel fs m top <> CrashO.
+Proof. exact never_crashes_l. Qed.
+Print Assumptions never_crashes.
+
+(* ---- non-vacuity: a document with a nested file, a second \bibstyle and \bibdata after the
+   return from it, and a key cited in two spellings across the file boundary *)
+Example ex_read :
+  exists a, parse_aux 5 ex_fs Capture (s2l "a.aux") = Ret a /\
+    a_cits a = [s2l "k"; s2l "K"; s2l "k"; s2l "*"] /\
+    a_style a = Some (s2l "s") /\ a_data a = Some [s2l "x"; s2l "y"] /\
+    a_errs a = [ mkerr (EMismatch (s2l "K") (s2l "k")) (at_ "a.aux" 2 "\citation{k,K}");
+                 mkerr (EMismatch (s2l "k") (s2l "K")) (at_ "b.aux" 3 "\citation{k}");
+                 mkerr EStyle (at_ "a.aux" 4 "\bibstyle{t}");
+                 mkerr EData (at_ "a.aux" 5 "\bibdata{d,e}") ] /\
+    doc_status 5 ex_fs (s2l "a.aux") = Complete /\
+    length (doc_visits 5 ex_fs (s2l "a.aux")) = 7.
+Proof. eexists. vm_compute. repeat split. Qed.
+
+Example ex_strict :
+  exists a, parse_aux 5 ex_fs Strict (s2l "a.aux")
+            = Raise (mkerr (EMismatch (s2l "K") (s2l "k")) (at_ "a.aux" 2 "\citation{k,K}")) a.
+Proof. eexists. vm_compute. reflexivity. Qed.
+
+Example ex_fatal :
+  let fs := fs_of [(s2l "t.aux", concat [ln "\citation{a}"; ln "\bibstyle{s}"])] in
+  doc_status 3 fs (s2l "t.aux") = Complete /\
+  find (is_cmd CBibdata) (doc_visits 3 fs (s2l "t.aux")) = None /\
+  exists a, parse_aux 3 fs Lenient (s2l "t.aux") = Raise (fatal ENoData (s2l "t.aux")) a.
+Proof. vm_compute. repeat split. eexists. reflexivity. Qed.
+
+Example ex_nothing_to_report :
+  let fs := fs_of [(s2l "t.aux", concat [ln "\citation{a}"; ln "\bibstyle{s}"; ln "\bibdata{d}"; ln "\citation{a}"])] in
+  reports false false [] (doc_visits 3 fs (s2l "t.aux")) = [] /\
+  exists a, parse_aux 3 fs Strict (s2l "t.aux") = Ret a /\ a_cits a = [s2l "a"; s2l "a"].
+Proof. vm_compute. split; [reflexivity|]. eexists. split; reflexivity. Qed.
